@@ -1145,3 +1145,69 @@ Proof.
       (all_act_quorum ids l t hb et c Hquorum _ L1 HI Hall) in H.
     apply beat_phase_PC in H; [exact H|exact I3|exact I2|exact F].
 Qed.
+
+Local Notation deliver_WInv' := (deliver_WInv ids l t hb et c Ht0 Hl0 Hhbet Hquorum).
+Local Notation star_round_WInv' := (star_round_WInv ids l t hb et c Ht0 Hl0 Hlids Hhbet Hquorum).
+Local Notation follower_exchange' := (follower_exchange ids l t hb et c Ht0 Hl0 Hhbet Hquorum).
+Local Notation QL_okF' := (QL_okF ids l t hb et c Ht0 Hl0 Hhbet Hquorum).
+Local Notation LInv_steps' := (LInv_steps ids l t hb et c Ht0 Hl0 Hhbet Hquorum).
+Local Notation leader_tick_LInv' := (leader_tick_LInv ids l t hb et c Ht0 Hl0 Hlids Hhbet Hquorum).
+Local Notation adv_okL' := (adv_okL ids l t hb et c Ht0 Hl0 Hhbet Hquorum).
+Local Notation adv_okF' := (adv_okF ids l t hb et c Ht0 Hl0 Hhbet Hquorum).
+
+(* the members' side of the closed invariant: the window invariant, every member has
+   voted for a member, and every queued message is of the pool class *)
+Definition MInv (vs : list N) (L : raft) (Fs : list raft) : Prop :=
+  WInv' vs L Fs /\ In (r_vote L) (l :: ids) /\ Forall (fun v => In v (l :: ids)) vs /\
+  Forall PC (r_msgs L) /\ Forall (fun F => Forall PC (r_msgs F)) Fs.
+
+Lemma WInv_member vs L Fs F :
+  WInv' vs L Fs -> Forall (fun v => In v (l :: ids)) vs -> In F Fs ->
+  In (r_id F) ids /\ In (r_vote F) (l :: ids).
+Proof.
+  intros (_ & Hid & Hv & _) Hvs HF. split.
+  - rewrite <- Hid. apply in_map. exact HF.
+  - rewrite Forall_forall in Hvs. apply Hvs. rewrite <- Hv. apply in_map. exact HF.
+Qed.
+
+Lemma deliver_MInv vs L Fs tm L' Fs' :
+  MInv vs L Fs -> adv_ok ids l t (snd tm) -> PC (snd tm) ->
+  deliver (L, Fs) tm = Ok (L', Fs') -> MInv vs L' Fs'.
+Proof.
+  intros (HW & HvL & Hvs & FL & FF) Hadv Hpc H.
+  pose proof (deliver_WInv' _ _ _ _ _ _ HW Hadv H) as HW'.
+  split; [exact HW'|]. split; [|split; [exact Hvs|]].
+  - unfold deliver in H. cbn [fst snd] in H. destruct (fst tm =? r_id L).
+    + ib H y Hy. injection H as <- _. destruct y as [L1 c1]. cbn [fst].
+      destruct HW as (HL & _).
+      destruct (LInv_step' _ _ _ _ _ HL (adv_okL' _ Hadv) Hy) as (_ & (K & _) & _).
+      apply keeps_fields in K. destruct K as (_ & K2 & _). rewrite K2. exact HvL.
+    + ib H Fs1 H1. injection H as <- _. exact HvL.
+  - unfold deliver in H. cbn [fst snd] in H. destruct (fst tm =? r_id L).
+    + ib H y Hy. injection H as <- <-. destruct y as [L1 c1]. cbn [fst]. split; [|exact FF].
+      destruct HW as (HL & _).
+      eapply leader_step_PC; [exact HL|exact HvL|exact (adv_okL' _ Hadv)|exact Hpc|exact Hy|exact FL].
+    + ib H Fs1 H1. injection H as <- <-. split; [exact FL|].
+      apply mapM_Forall2 in H1.
+      assert (Hmem : forall F, In F Fs -> In (r_id F) ids /\ In (r_vote F) (l :: ids))
+        by (intros F HF; exact (WInv_member vs L Fs F HW Hvs HF)).
+      destruct HW as (_ & _ & _ & HFI). clear HW'.
+      revert HFI FF Hmem. induction H1 as [|F F1 Fs0 Fs10 Hx Hrest IH]; intros HFI FF Hmem; [constructor|].
+      apply Forall_cons_iff in HFI. destruct HFI as [HF0 HFr].
+      apply Forall_cons_iff in FF. destruct FF as [FF0 FFr].
+      constructor; [|apply IH; [exact HFr|exact FFr|intros G HG; apply Hmem; right; exact HG]].
+      destruct (r_id F =? fst tm); [|injection Hx as <-; exact FF0].
+      ib Hx y Hy. injection Hx as <-. destruct y as [Fa ca]. cbn [fst].
+      destruct (Hmem F (or_introl eq_refl)) as [Hi Hv].
+      eapply follower_step_PC; [exact HF0|exact Hi|exact Hv|exact (adv_okF' _ Hadv)|exact Hpc|exact Hy|exact FF0].
+Qed.
+
+Lemma deliver_all_MInv vs : forall adv L Fs L' Fs',
+  MInv vs L Fs -> Forall (fun tm => adv_ok ids l t (snd tm) /\ PC (snd tm)) adv ->
+  deliver_all (L, Fs) adv = Ok (L', Fs') -> MInv vs L' Fs'.
+Proof.
+  induction adv as [|tm rest IH]; intros L Fs L' Fs' HI Hadv H; cbn [deliver_all] in H.
+  - injection H as <- <-. exact HI.
+  - apply Forall_cons_iff in Hadv. destruct Hadv as [[Ha Hp] Hr]. ib H st Hst. destruct st as [L1 Fs1].
+    eapply IH; [|exact Hr|exact H]. eapply deliver_MInv; eassumption.
+Qed.
